@@ -11,7 +11,8 @@ import MdVerif.Driver.Mic
 import MdVerif.Driver.Cell
 import MdVerif.Driver.Nb
 import MdVerif.Driver.Ang
-open MdVerif MdVerif.Driver MdVerif.Driver.TrajP MdVerif.Driver.TopoP MdVerif.Driver.WriterP MdVerif.Driver.SelP MdVerif.Driver.MicP MdVerif.Driver.CellP MdVerif.Driver.NbP MdVerif.Driver.AngP
+import MdVerif.Driver.Sasa
+open MdVerif MdVerif.Driver MdVerif.Driver.TrajP MdVerif.Driver.TopoP MdVerif.Driver.WriterP MdVerif.Driver.SelP MdVerif.Driver.MicP MdVerif.Driver.CellP MdVerif.Driver.NbP MdVerif.Driver.AngP MdVerif.Driver.SasaP
 
 def handle (line : String) : String :=
   let ws := (line.splitOn " ").filter (· ≠ "")
@@ -25,6 +26,7 @@ def handle (line : String) : String :=
   | "cell" :: _ | "cellops" :: _ => handleCell ws
   | "nbl" :: _ | "nbs" :: _ => handleNb ws
   | "ang" :: _ | "dih" :: _ | "tors" :: _ => handleAng ws
+  | "sasa" :: _ => handleSasa ws
   | _ => "bad-op"
 
 partial def loop (h : IO.FS.Stream) (out : IO.FS.Stream) : IO Unit := do
